@@ -50,11 +50,15 @@ class NumState:
         return len(self.X)
 
 
-def real_state(dt=None, timestep=0, timestamp=None, **arrays):
-    """the real LADiM State (`ladim.state.State`), which hands out live arrays and coerces `active` to bool"""
+def real_state(dt=None, timestep=0, timestamp=None, alive=None, **arrays):
+    """the real LADiM State (`ladim.state.State`), which hands out live arrays and coerces `active` to bool.
+    `alive` (optional): liveness flags at the time of the call (`State.append` itself always starts with all alive;
+    a particle killed earlier in the step, or kept in the arrays after its death, has False)"""
     from ladim.state import State
     s = State()
     s.append({k: np.asarray(v) for k, v in arrays.items()})
+    if alive is not None and len(s):
+        s["alive"] = np.asarray(alive, dtype=bool).copy()
     if dt is not None:
         s.dt = dt
     s.timestep = timestep
@@ -66,11 +70,14 @@ def real_state(dt=None, timestep=0, timestamp=None, **arrays):
 class LinEnv:
     """depth = h0 + hx*x + hy*y ; wvel = w0 + wz*z ; vdiff(z) profile (0 const k0 | 1 linear k0+k1*z |
     2 step k0 if z<zs else k1) ; hdiff = a0 + ax*x + ay*y ; metric dx ; ingrid box ;
-    temp = t0 + tz*z ; salt = s0 + sz*z ; bottom velocity (ub, vb) constant"""
+    is_close_to_land = x < coastx (optional, not part of the driver's EnvSpec: the harness decides who is re-seeded) ;
+    temp = t0 + tz*z ; salt = s0 + sz*z ; bottom velocity (ub, vb) constant ;
+    lonlat = (lon0 + lonx*x, lat0 + laty*y) (optional slopes, default 0; not part of the driver's EnvSpec)"""
 
     def __init__(self, h0=50.0, hx=0.0, hy=0.0, w0=0.0, wz=0.0, kkind=0, k0=0.0, k1=0.0, zs=0.0,
                  a0=0.0, ax=0.0, ay=0.0, dx=100.0, xmin=1.0, xmax=20.0, ymin=1.0, ymax=20.0,
-                 t0=8.0, tz=0.0, s0=34.0, sz=0.0, ub=0.0, vb=0.0, lon0=5.0, lat0=60.0):
+                 t0=8.0, tz=0.0, s0=34.0, sz=0.0, ub=0.0, vb=0.0, lon0=5.0, lat0=60.0, coastx=None,
+                 lonx=0.0, laty=0.0):
         self.__dict__.update(locals())
         del self.__dict__["self"]
         self.calls = []
@@ -103,6 +110,13 @@ class LinEnv:
     def ingrid(self, x, y):
         return ((self.xmin - 0.5 < x) & (x < self.xmax + 0.5) & (self.ymin - 0.5 < y) & (y < self.ymax + 0.5))
 
+    def close_to_land(self, x, y):
+        """`grid.grid.is_close_to_land`: cells west of `coastx` are coastal (none when coastx is None)"""
+        x = np.asarray(x, dtype=float)
+        if self.coastx is None:
+            return np.zeros(x.shape, dtype=bool)
+        return x < self.coastx
+
     def field(self, x, y, z, name):
         z = np.asarray(z, dtype=float)
         if name == "temp":
@@ -117,11 +131,12 @@ class LinEnv:
 
     def lonlat(self, x, y, method="bilinear"):
         x = np.asarray(x, dtype=float); y = np.asarray(y, dtype=float)
-        return self.lon0 + 0.0 * x, self.lat0 + 0.0 * y
+        # lon = lon0 + lonx*x, lat = lat0 + laty*y (default slopes 0: every particle at (lon0, lat0))
+        return self.lon0 + self.lonx * x, self.lat0 + self.laty * y
 
     def grid(self):
         g = Obj(sample_depth=self.depth, sample_metric=self.metric, ingrid=self.ingrid,
-                lonlat=self.lonlat, xy2ll=self.lonlat,
+                lonlat=self.lonlat, xy2ll=self.lonlat, is_close_to_land=self.close_to_land,
                 atsea=lambda x, y: np.ones(np.shape(x), dtype=bool))
         g.grid = g
         return g
